@@ -149,6 +149,12 @@ func (u *udpDriver) handleProbeLayers() (*common.ProbeResponse, error) {
 			return nil, &common.BadPacketError{Err: fmt.Errorf("udpDriver failed to get ICMP info: %w", err)}
 		}
 
+		// the quoted packet must be a UDP datagram: a TCP segment with the same port numbers is
+		// another flow
+		if icmpInfo.WrappedProtocol != layers.IPProtocolUDP {
+			return nil, common.ErrPacketDidNotMatchTraceroute
+		}
+
 		// make sure the source/destination match
 		udpInfo, err := packets.ParseUDPFirstBytes(icmpInfo.Payload)
 		if err != nil {
